@@ -100,49 +100,7 @@ def monitor_evaluations():
 
 
 # ---------------------------------------------------------------- libraries
-_synth = {}
-
-
-def synthetic_library(key):
-    """A library generated from `key`, written as YAML and loaded through the
-    real loader.  Returns (lib, meta) where meta lists the names."""
-    if key in _synth:
-        return _synth[key]
-    import random
-    rng = random.Random('C01-synth:%s' % key)
-    n = rng.randint(2, 9)
-    alphabet = ['C', 'H', 'O', 'C[d]', 'CO', 'Pt', 'N[A]', 'C[.]']
-    groups = {}
-    while len(groups) < n:
-        c = rng.choice(alphabet)
-        ps = sorted(rng.choice(alphabet) for _ in range(rng.randint(1, 4)))
-        name = c
-        for p in sorted(set(ps)):
-            k = ps.count(p)
-            name += '(%s)' % p + ('%d' % k if k > 1 else '')
-        if name not in groups:
-            if rng.random() < 0.12:
-                groups[name] = None          # entry without a property set
-            else:
-                groups[name] = libfiles.random_group(rng)
-    descs = {}
-    for i in range(rng.randint(0, 3)):
-        descs['corr%d_%s' % (i, key)] = libfiles.random_group(rng)
-    text = libfiles.render_library(groups, descs)
-    with libfiles.TempTree() as tree:
-        p = libfiles.write_library(tree, 'library.yaml', text)
-        lib = libs.fresh(p)
-    meta = {'groups': groups, 'descs': descs, 'text': text}
-    _synth[key] = (lib, meta)
-    return _synth[key]
-
-
-def get_lib(spec, fresh=False):
-    if isinstance(spec, str):
-        return libs.fresh(spec) if fresh else libs.get(spec)
-    if fresh:
-        _synth.pop(spec[1], None)
-    return synthetic_library(spec[1])[0]
+from vmon.gen.synthlib import get_lib  # noqa: E402
 
 
 def keys_with_data(lib):
